@@ -662,6 +662,50 @@ def parse_error_dropped(F, rep):
                    "syntax error inside the construct (possibly lines below) is reported somewhere else" % (fname, last(callee(sub))),
                    line_of(m))
     rep.floor("PARSE-ERROR-DROPPED", "speculative sub-parses", n, 1)
+    optional_expressions(F, rep)
+
+
+def optional_expressions(F, rep):
+    """Where an expression is optional (the value of `Enum.Variant`, the next argument of a `'`-call) its presence is
+    decided from the next token by starts_expression(); that predicate has to accept exactly the tokens prefix() has a rule
+    for - one token too few and a construct that is there is silently skipped (and whatever follows is blamed), one too many
+    and an absent value becomes a syntax error."""
+    from hir import pat_alternatives, pat_variant
+    se = F.fn_opt("sylt_parser::expression::starts_expression")
+    if se is None:
+        rep.ob("PARSE-ERROR-DROPPED", "optional-expression|decided-by-the-next-token", False,
+               "no predicate says which tokens can start an expression: optional expressions can only be probed by trying to parse them")
+        return
+    rep.analysed(se)
+    yes = set()
+    for m in nodes(fn_body(se), "Match"):
+        for a in m["arms"]:
+            if peel(a["body"]).get("v") is True:
+                for alt in pat_alternatives(a["pat"]):
+                    v = pat_variant(alt)
+                    if v:
+                        yes.add(last(v))
+    pf = F.fn("sylt_parser::expression::prefix")
+    rules = set()
+    for m in nodes(fn_body(pf), "Match"):
+        if "token::Token" not in (m.get("scrut_ty") or ""):
+            continue
+        for a in m["arms"]:
+            if _returns_err(a["body"]):
+                continue
+            for alt in pat_alternatives(a["pat"]):
+                v = pat_variant(alt)
+                if v:
+                    rules.add(last(v))
+        break
+    rep.ob("PARSE-ERROR-DROPPED", "starts_expression|mirrors-prefix", bool(yes) and yes == rules,
+           "starts_expression() accepts exactly the %d tokens prefix() has a rule for" % len(rules) if yes == rules and yes else
+           "starts_expression() and prefix() disagree: only in the predicate %s, only in prefix() %s" % (sorted(yes - rules), sorted(rules - yes)),
+           se["sp"])
+    users = sorted({last(fn["_path"]) for fn in F.own_fns(["sylt_parser"]) if "::test" not in fn["_path"]
+                    for c in nodes(fn_body(fn), "Call") if callee(c) == "sylt_parser::expression::starts_expression"})
+    rep.ob("PARSE-ERROR-DROPPED", "optional-expression|decided-by-the-next-token", len(users) >= 2,
+           "optional expressions are decided from the next token in %s" % users, se["sp"], sites=len(users))
 
 
 def _strip(p):
